@@ -271,6 +271,14 @@ Proof. exact xprove_succeeds. Qed.
 Print Assumptions c13_confirmed_successor_proves.
 
 
+(* (/repo 7f58b1d) a v2 contract that RejectContracts has marked — its formation or the renewal that created
+   it was never confirmed — cannot be renewed: RenewV2Contract answers an error, no successor row, the
+   predecessor as it was; in any state, for any transaction set, with a store failure at any statement *)
+Theorem c13_rejected_v2_contract_is_not_renewed : forall s old, mem old (rejd (dbs s)) = true ->
+  forall new c m wf f, exists r, step s (Renew2 old new c m wf f) = (s, ORes r) /\ r <> Ok tt.
+Proof. exact (fun s old Rj => proj1 (proj2 (rejected2_refuses_l s old Rj))). Qed.
+Print Assumptions c13_rejected_v2_contract_is_not_renewed.
+
 (* non-vacuity: the example history renews contract 7 to 8; 7 then refuses the lock, 8 accepts it
    and was revised *)
 Example c13_nonvacuous :
